@@ -241,21 +241,31 @@ def isoMass (mass frac : α) (p : IsoPart α) : Option α :=
     let m := mass * frac * ab * 0.01
     if m == 0 then none else some m
 
-/-- `calculate_activation`: `rowsOf z a` are the table rows of that isotope -/
+/-- the `(Z, A, mass)` of every call `activity(el[iso], iso_mass, …)` that `calculate_activation`
+    makes, in the order it makes them -/
+def isoJobs (mass : α) (parts : List (Part α)) : List (Nat × Nat × α) :=
+  parts.flatMap fun part =>
+    part.isos.filterMap fun p => (isoMass mass part.frac p).map fun m => (p.z, p.a, m)
+
+/-- the results of those calls; the first exception ends the calculation -/
+def runJobs (c : Consts α) (rowsOf : Nat → Nat → List (Nat × Row α)) (env : Env α) (T : α)
+    (times : List α) : List (Nat × Nat × α) → Except Err (List (List (Nat × List α)))
+  | [] => .ok []
+  | (z, a, m) :: more =>
+    match activity c (rowsOf z a) m env T times with
+    | .error e => .error e
+    | .ok res =>
+      match runJobs c rowsOf env T times more with
+      | .error e => .error e
+      | .ok out => .ok (res :: out)
+
+/-- `calculate_activation`: `rowsOf z a` are the table rows of that isotope.  (Accumulating
+    after all calls instead of after each one gives the same tally or the same exception.) -/
 def calcActivation (c : Consts α) (rowsOf : Nat → Nat → List (Nat × Row α)) (mass : α) (env : Env α)
     (T : α) (rests : List α) (parts : List (Part α)) : Except Err (Tally α) :=
-  let times := (0 : α) :: rests
-  let isoStep (frac : α) (acc : Except Err (Tally α)) (p : IsoPart α) : Except Err (Tally α) :=
-    match acc with
-    | .error e => .error e
-    | .ok s =>
-      match isoMass mass frac p with
-      | none => .ok s
-      | some m =>
-        match activity c (rowsOf p.z p.a) m env T times with
-        | .error e => .error e
-        | .ok res => .ok (accumulate rests.length s res)
-  parts.foldl (fun acc part => part.isos.foldl (isoStep part.frac) acc) (.ok {})
+  match runJobs c rowsOf env T ((0 : α) :: rests) (isoJobs mass parts) with
+  | .error e => .error e
+  | .ok results => .ok (results.foldl (accumulate rests.length) {})
 
 /-! ## `Sample.decay_time` and `find_root` -/
 
